@@ -1,0 +1,15 @@
+//go:build verif
+
+// Contracts for the verification machinery in /verif (comment-only, built only with -tags verif).
+
+package ipfamily
+
+//@ func ForAddress
+//@   pure
+//@   ensures result == ite(net.is4(ip), IPv4, IPv6)
+//@   modifies nothing
+
+//@ func ForCIDR
+//@   requires cidr != nil
+//@   ensures result == ite(net.is4(cidr.IP), IPv4, IPv6)
+//@   modifies nothing
